@@ -115,6 +115,8 @@ package sio
 //@   ensures[C15] reported: ordinary(mid) && state != nil ==> (mid in c.changed) && c.changed[mid] != nil && c.changed[mid].State == state
 //@   ensures[C15] srcreported: ordinary(mid) && src != nil ==> (mid in c.changed) && c.changed[mid] != nil && c.changed[mid].SpecSrc == src
 //@   ensures[C15] statekept: old(mid in c.Machines) && state == nil ==> (mid in c.Machines) && c.Machines[mid] == old(c.Machines[mid]) && c.Machines[mid].State == old(c.Machines[mid].State) && c.Machines[mid].State.NodeName == old(c.Machines[mid].State.NodeName)
+//@   ensures[C15] recreatedstate: !old(mid in c.Machines) && old((mid in c.changed) && c.changed[mid].Deleted) && ordinary(mid) && err == nil && state == nil
+//@                        ==> (mid in c.changed) && c.changed[mid].State != nil && c.changed[mid].State == c.Machines[mid].State
 //@   ensures[C15] recreated: err == nil && ordinary(mid) && (mid in c.changed) ==> c.changed[mid] != nil && !c.changed[mid].Deleted
 //@   ensures[C15] others: forall k string :: k != mid ==> ((k in c.Machines) <==> old(k in c.Machines)) && c.Machines[k] == old(c.Machines[k])
 
